@@ -243,6 +243,7 @@ typedef struct e1_cfg {
     int    prune_on_violation;             /* do not expand the successor of a violating transition */
     int    record_outhash;                 /* keep per-transition output hashes */
     const uint64_t *compare_outhash; uint64_t compare_n;   /* second run: outputs must equal the first run's */
+    int compare_partial;                                   /* the first run was cut short (deadline / memory): transitions beyond its last one are not compared */
 } e1_cfg;
 typedef struct e1_stats {
     uint64_t states, transitions; int max_depth; int fixpoint; const char *cap;
